@@ -32,6 +32,7 @@ import (
 	"sync/atomic"
 	"time"
 
+	"github.com/nextdns/nextdns/discovery"
 	"github.com/nextdns/nextdns/proxy"
 	"github.com/nextdns/nextdns/resolver"
 	"github.com/nextdns/nextdns/resolver/endpoint"
@@ -116,6 +117,8 @@ type dohServer struct {
 	reqs     []dohReq
 	conns    map[net.Conn]bool
 	rejectN  int32
+	silentN  int32 // the next connections are accepted and then left alone: the TLS handshake never completes
+	held     []net.Conn
 	srv      *http.Server
 	ln       net.Listener
 	hangStop chan struct{}
@@ -138,6 +141,13 @@ func (l rejectListener) Accept() (net.Conn, error) {
 				_ = tc.SetLinger(0) // RST
 			}
 			c.Close()
+			continue
+		}
+		if atomic.LoadInt32(&l.s.silentN) > 0 {
+			atomic.AddInt32(&l.s.silentN, -1)
+			l.s.mu.Lock()
+			l.s.held = append(l.s.held, c)
+			l.s.mu.Unlock()
 			continue
 		}
 		return c, nil
@@ -297,6 +307,17 @@ func (s *dohServer) take() []dohReq {
 	s.reqs = nil
 	s.mu.Unlock()
 	return r
+}
+
+// releaseHeld closes the connections that were accepted and left alone
+func (s *dohServer) releaseHeld() {
+	atomic.StoreInt32(&s.silentN, 0)
+	s.mu.Lock()
+	for _, c := range s.held {
+		c.Close()
+	}
+	s.held = nil
+	s.mu.Unlock()
 }
 
 // dropConns closes every client connection (the next request must dial again)
@@ -971,6 +992,11 @@ func autoAnswerP(q []byte, path string) []byte {
 	b := append([]byte{}, q[:off]...)
 	b[2], b[3] = 0x81, 0x80
 	b[4], b[5], b[6], b[7], b[8], b[9], b[10], b[11] = 0, 1, 0, 1, 0, 0, 0, 0
+	if bytes.Contains(bytes.ToLower(q[12:off]), []byte("\x03nxd")) {
+		// names with a label "nxd" do not exist upstream
+		b[3], b[7] = 0x83, 0
+		return b
+	}
 	sum := md5.Sum(append(append([]byte{}, q[12:off]...), path...))
 	typ := q[off-4 : off-2]
 	rd := sum[:4]
@@ -1004,13 +1030,15 @@ func resolverE2E(r *rng, n int, certDir string) error {
 		p := profOf(q.PeerIP)
 		return "https://doh.test/" + p, p
 	}
-	p := proxy.Proxy{Addrs: []string{"127.0.0.1:5301"}, Upstream: w.res, Timeout: 1500 * time.Millisecond, MaxInflightRequests: 64}
+	// as in the daemon: names the upstream does not know are looked up in the discovery sources (a device on the LAN)
+	p := proxy.Proxy{Addrs: []string{"127.0.0.1:5301"}, Upstream: w.res, Timeout: 1500 * time.Millisecond, MaxInflightRequests: 64,
+		DiscoveryResolver: discovery.Resolver{e2eLan{}}}
 	ctx, cancel := context.WithCancel(context.Background())
 	defer cancel()
 	go func() { _ = p.ListenAndServe(ctx) }()
 	time.Sleep(150 * time.Millisecond)
 	bases := []string{"www.example.com", "mail.example.com", "a.b.c.example.org", "router.lan.example", "x.test", "cdn.example.net",
-		"api.service.example", "time.example.com", "w3.example.com", "w3|example.com", "w3.example|com", "db.internal.example", "long-label-name-for-testing.example.com", "q.example"}
+		"api.service.example", "time.example.com", "w3.example.com", "printer.nxd.example", "ghost.nxd.example", "printer.nxd.example", "w3|example.com", "w3.example|com", "db.internal.example", "long-label-name-for-testing.example.com", "q.example"}
 	type cq struct {
 		proto string
 		q     []byte
@@ -1064,6 +1092,11 @@ func resolverE2E(r *rng, n int, certDir string) error {
 			if len(body) == len(a) && len(a) > qend+10 && bytes.Equal(body[qend+10:], a[qend+10:]) {
 				saw = itoa(k)
 			}
+		}
+		if bytes.Contains(bytes.ToLower(q[12:qend]), []byte("\x07printer\x03nxd")) {
+			// unknown upstream, known on the LAN: answered locally -- one reply, the query's ID and question, no error
+			emit("e2el", itoa(serial), proto, hx(q), "=>", itoa(nrep), hxo(body))
+			return
 		}
 		emit("e2e", itoa(serial), proto, hx(q), hx(exp), itoa(prof), "=>", itoa(nrep), hxo(rep), saw)
 	}
@@ -1185,7 +1218,7 @@ func resolverFaultMain(r *rng, n int, certDir string) error {
 	go func() { _ = p.ListenAndServe(ctx) }()
 	time.Sleep(150 * time.Millisecond)
 	dohKinds := []string{"ok", "status", "empty", "big", "hang_hdr", "hang_mid", "reset_hdr", "reset_mid", "trickle", "trickle_slow", "refuse", "junk",
-		"reset_then_hang", "resetmid_then_trickle", "status_then_hang"}
+		"reset_then_hang", "resetmid_then_trickle", "status_then_hang", "tls_hang"}
 	dnsKinds := []string{"ok", "none", "mismatch_ok", "short_ok", "mismatch_only", "late", "junk", "unreach", "stray_late", "stray_trickle"}
 	for i := 0; i < n; i++ {
 		// every fault of both menus in turn (quick runs cover each several times), queries stay random
@@ -1247,6 +1280,13 @@ func resolverFaultMain(r *rng, n int, certDir string) error {
 				case "refuse":
 					sc.kind = "ok"
 					w.doh.dropConns(3)
+					outcome = "err"
+				case "tls_hang":
+					// no connection left, and the upstream accepts the next ones without ever answering the TLS hello;
+					// those stay open (silent) while the well-behaved exchange that follows is made
+					sc.kind = "ok"
+					w.doh.dropConns(0)
+					atomic.StoreInt32(&w.doh.silentN, 4)
 					outcome = "err"
 				case "junk":
 					sc.kind = "ok"
@@ -1322,6 +1362,12 @@ func resolverFaultMain(r *rng, n int, certDir string) error {
 			lat := time.Since(start)
 			if !useDNS && k == "refuse" {
 				atomic.StoreInt32(&w.doh.rejectN, 0)
+			}
+			if !useDNS && k == "tls_hang" {
+				atomic.StoreInt32(&w.doh.silentN, 0) // the upstream behaves again; the silent connections stay as they are
+			}
+			if !useDNS && step == 1 && kind == "tls_hang" {
+				w.doh.releaseHeld()
 			}
 			var rep []byte
 			if len(rs) > 0 {
@@ -1403,6 +1449,20 @@ func resolverFaultCut(r *rng, n int, certDir string) error {
 			}
 			emit("fault", fmt.Sprintf("c%d.%d", i, step), tr, fmt.Sprintf("cut@q+%d", cut-qend), hx(q), "any", hx(cutBody), "=>", itoa(len(rs)), hxo(rep), fmt.Sprint(lat.Milliseconds()), fmt.Sprint(timeout.Milliseconds()))
 		}
+	}
+	return nil
+}
+
+// e2eLan: a discovery source that knows one device of the LAN
+type e2eLan struct{}
+
+func (e2eLan) Name() string                 { return "verif-lan" }
+func (e2eLan) Visit(func(string, []string)) {}
+func (e2eLan) LookupAddr(string) []string   { return nil }
+func (e2eLan) LookupMAC(string) []string    { return nil }
+func (e2eLan) LookupHost(name string) []string {
+	if strings.ToLower(name) == "printer.nxd.example." {
+		return []string{"10.9.8.7"}
 	}
 	return nil
 }
